@@ -23,6 +23,8 @@ from hail.ir import ir as _irmod  # noqa: E402
 
 _irmod._aggregator_registry['Sum'] = []
 _irmod.register_aggregator('Sum', (), (tint64,), tint64)
+_irmod._aggregator_registry['Count'] = []
+_irmod.register_aggregator('Count', (), (), tint64)
 
 # result types: i int32, b bool, a array<int32>, s stream<int32>, t struct{a:int32,b:int32}, l int64
 # kinds: name -> (result type, [operand slots]); a slot is (type, binds) where binds = names bound in it
@@ -39,7 +41,21 @@ KINDS = {
     'SUM': ('l', 'l'), 'AGGF': ('l', 'bl'), 'SAGG': ('l', 'Sl'),
     # scans: SCAN / SCANF as above in the scan scope; SSCAN(stream, body) yields the stream of running results
     'SCAN': ('l', 'l'), 'SCANF': ('l', 'bl'), 'SSCAN': ('S', 'Sl'),
+    # grouping / exploding aggregation nodes (agg twins, then scan twins).  D dict<int64,int64>, P struct{a:int64,b:D},
+    # E/F stream/array of D, G/H stream/array of P, A2 = MakeArray of two int64 (fixed length 2)
+    'COUNT': ('l', ''), 'GRP': ('D', 'll'), 'EXPL': ('l', 'Sl'), 'APE': ('B', 'Ql'), 'MKAL': ('Q', 'll'),
+    'COUNTS': ('l', ''), 'GRPS': ('D', 'll'), 'EXPLS': ('l', 'Sl'), 'APES': ('B', 'Ql'),
+    'PAIR': ('P', 'lD'), 'SAGGD': ('D', 'SD'), 'SAGGP': ('P', 'SP'), 'SAGGB': ('B', 'SB'),
+    'SSCAND': ('E', 'SD'), 'SSCANP': ('G', 'SP'), 'SSCANB': ('I', 'SB'),
+    'TOALD': ('F', 'E'), 'TOALP': ('H', 'G'), 'TOALB': ('J', 'I'),
 }
+SEQ_SLOT0 = ('SUM', 'SCAN', 'AGGF', 'SCANF', 'GRP', 'GRPS', 'EXPL', 'EXPLS', 'APE', 'APES')
+AGG_KINDS = ('SUM', 'AGGF', 'COUNT', 'GRP', 'EXPL', 'APE')
+SCAN_KINDS = ('SCAN', 'SCANF', 'COUNTS', 'GRPS', 'EXPLS', 'APES')
+SAGG_KINDS = ('SAGG', 'SAGGD', 'SAGGP', 'SAGGB')
+SSCAN_KINDS = ('SSCAN', 'SSCAND', 'SSCANP', 'SSCANB')
+WRAP = {'agg': {'l': ('SAGG', None), 'D': ('SAGGD', None), 'P': ('SAGGP', None), 'B': ('SAGGB', None)},
+        'scan': {'l': ('SSCAN', 'TOAL'), 'D': ('SSCAND', 'TOALD'), 'P': ('SSCANP', 'TOALP'), 'B': ('SSCANB', 'TOALB')}}
 
 FAMILIES = {
     # value family: everything in the statement's quantifier
@@ -55,6 +71,16 @@ FAMILIES = {
                     leaves={'b': ['p'], 'l': ['y', 'd'], 'S': ['SB']}),
     'scancore': dict(kinds=['LSUB', 'LLT', 'SCAN', 'SCANF', 'SSCAN', 'TOAL'], roots='B', if_types='', let_types='',
                      leaves={'b': ['p'], 'l': ['y', 'd'], 'S': ['SB']}),
+    # grouping families: the root is always StreamAgg(ToStream B, e, body) resp. ToArray(StreamAggScan(ToStream B, e,
+    # body)) (not counted); `body` (int64, dict, struct{a:int64,b:dict} or per-element array) is generated
+    'grp': dict(wrap='agg', kinds=['LSUB', 'SUM', 'COUNT', 'AGGF', 'LLT', 'GRP', 'PAIR', 'EXPL'], roots='lDP',
+                if_types='', let_types='', leaves={'b': ['p'], 'l': ['y', 'd'], 'S': ['SB']}),
+    'grps': dict(wrap='scan', kinds=['LSUB', 'SCAN', 'COUNTS', 'SCANF', 'LLT', 'GRPS', 'PAIR', 'EXPLS'], roots='lDP',
+                 if_types='', let_types='', leaves={'b': ['p'], 'l': ['y', 'd'], 'S': ['SB']}),
+    'ape': dict(wrap='agg', kinds=['LSUB', 'SUM', 'COUNT', 'APE', 'MKAL', 'GRP'], roots='BD',
+                if_types='', let_types='', leaves={'l': ['y', 'd'], 'S': ['SB']}),
+    'apes': dict(wrap='scan', kinds=['LSUB', 'SCAN', 'COUNTS', 'APES', 'MKAL', 'GRPS'], roots='BD',
+                 if_types='', let_types='', leaves={'l': ['y', 'd'], 'S': ['SB']}),
     # binder-centred family for 4 nodes; two-kind families for 5 nodes
     'bind4': dict(kinds=['SUB', 'IF', 'LET', 'SMAP', 'FOLD', 'TOA'], roots='ia', if_types='i', let_types='i',
                   leaves={'i': ['x'], 'b': ['p'], 's': ['SA']}),
@@ -157,7 +183,24 @@ class Builder:
 
     def root(self):
         rt = self.choose([('root', t) for t in self.fam['roots']])[1]
-        return self.gen(rt, (), None)
+        wrap = self.fam.get('wrap')
+        if wrap is None:
+            return self.gen(rt, (), None)
+        inner_kind, outer_kind = WRAP[wrap][rt]
+        v = self.fresh('l')
+        nd = Node(inner_kind, KINDS[inner_kind][0], 0)
+        nd.names = (v,)
+        if wrap == 'agg':
+            body = self.gen(rt, (), ('agg', (v,)))
+        else:
+            body = self.gen(rt, (v,), ('scan', (v,)))
+        # scans are exclusive prefixes: 3 candidate rows (array C) so that some row sees 2 earlier rows
+        nd.ops = [Leaf('SB' if wrap == 'agg' else 'SC', 'S'), body]
+        if outer_kind is None:
+            return nd
+        top = Node(outer_kind, KINDS[outer_kind][0], 0)
+        top.ops = [nd]
+        return top
 
     def gen(self, typ, scope, agg):
         """scope: eval-scope bound names; agg: None or (kind, names): the agg / scan scope visible here."""
@@ -173,9 +216,9 @@ class Builder:
                 opts.append(('share', nd))
         if self.budget > 0:
             for k in self.kinds_for(typ):
-                if k in ('SUM', 'AGGF') and (agg is None or agg[0] != 'agg'):
+                if k in AGG_KINDS and (agg is None or agg[0] != 'agg'):
                     continue
-                if k in ('SCAN', 'SCANF') and (agg is None or agg[0] != 'scan'):
+                if k in SCAN_KINDS and (agg is None or agg[0] != 'scan'):
                     continue
                 opts.append(('new', k))
         if not opts:
@@ -200,6 +243,7 @@ class Builder:
         aggk = None
         for i, st in enumerate(sig):
             bound = ()
+            aggbound = ()
             sc, ag = scope, agg
             mode = 'eval'
             if kind in ('LET', 'LETL') and i == 1:
@@ -208,18 +252,27 @@ class Builder:
                 bound = (self.fresh(_VAR_OF_STREAM[sig[0]]),)
             elif kind == 'FOLD' and i == 2:
                 bound = (self.fresh('i', acc=True), self.fresh('i'))
-            elif kind in ('SUM', 'SCAN', 'AGGF', 'SCANF') and i == 0:
+            elif kind in SEQ_SLOT0 and i == 0:
                 mode = 'seq'          # evaluated per aggregated row, in the agg / scan scope
                 sc, ag = tuple(agg[1]), None
-            elif kind == 'SAGG' and i == 1:
+            elif kind in ('EXPL', 'EXPLS') and i == 1:
+                aggbound = (self.fresh('l'),)          # the exploded element, bound in the agg / scan scope only
+                nd.names = aggbound
+                ag = (agg[0], tuple(agg[1]) + aggbound)
+            elif kind in ('APE', 'APES') and i == 1:
+                aggbound = (self.fresh('l'),)          # element (agg / scan scope) and index (eval scope, int32)
+                bound = (self.fresh('i'),)
+                nd.names = aggbound + bound
+                ag = (agg[0], tuple(agg[1]) + aggbound)
+            elif kind in SAGG_KINDS and i == 1:
                 mode = 'aggbody'      # eval scope unchanged; agg scope = eval scope + element
                 bound = (self.fresh('l'),)
                 sc, ag = scope, ('agg', tuple(scope) + bound)
-            elif kind == 'SSCAN' and i == 1:
+            elif kind in SSCAN_KINDS and i == 1:
                 mode = 'scanbody'     # eval scope + element; scan scope = eval scope + element
                 bound = (self.fresh('l'),)
                 sc, ag = tuple(scope) + bound, ('scan', tuple(scope) + bound)
-            if bound:
+            if bound and not nd.names:
                 nd.names = bound
             if mode == 'eval':
                 sc = tuple(scope) + bound
@@ -239,10 +292,10 @@ class Builder:
                     if aggk is not None and aggk != o.aggk:
                         raise DeadEnd()
                     aggk = o.aggk
-                    afv |= set(o.afv)
-        if kind in ('SUM', 'AGGF'):
+                    afv |= set(o.afv) - set(aggbound)
+        if kind in AGG_KINDS:
             aggk = 'agg'
-        if kind in ('SCAN', 'SCANF'):
+        if kind in SCAN_KINDS:
             aggk = 'scan'
         if kind in ('SMAP', 'SFILT', 'SMAPL', 'FOLD') and aggk is not None:
             raise DeadEnd()        # aggregations under a stream lambda are not generated
@@ -284,7 +337,8 @@ def shared_count(root):
 def to_ir(root):
     memo = {}
     leaves = {'x': ir.Ref('x', tint32), 'c': ir.I32(7), 'p': ir.Ref('p', tbool), 'A': ir.Ref('A', tarray(tint32)),
-              'y': ir.Ref('y', tint64), 'd': ir.I64(7), 'B': ir.Ref('B', tarray(tint64))}
+              'y': ir.Ref('y', tint64), 'd': ir.I64(7), 'B': ir.Ref('B', tarray(tint64)),
+              'C': ir.Ref('C', tarray(tint64))}
     vars_ = {}
     types = {'i': tint32, 'l': tint64}
 
@@ -297,7 +351,7 @@ def to_ir(root):
         if isinstance(n, Var):
             return var(n.name, n.typ)
         if isinstance(n, Leaf):
-            if n.name in ('SA', 'SB'):      # pooled stream leaf: a fresh ToStream over the free array (streams are
+            if n.name in ('SA', 'SB', 'SC'):      # pooled stream leaf: a fresh ToStream over the free array (streams are
                 return ir.ToStream(leaves[n.name[1]])     # not values and are never shared)
             return leaves[n.name]
         if id(n) in memo:
@@ -322,7 +376,7 @@ def to_ir(root):
             r = ir.MakeArray(o, tarray(tint32))
         elif k in ('TOS', 'TOSL'):
             r = ir.ToStream(o[0])
-        elif k in ('TOA', 'TOAL'):
+        elif k in ('TOA', 'TOAL', 'TOALD', 'TOALP', 'TOALB'):
             r = ir.ToArray(o[0])
         elif k in ('SMAP', 'SMAPL'):
             r = ir.StreamMap(o[0], n.names[0], o[1])
@@ -342,10 +396,22 @@ def to_ir(root):
             r = ir.AggFilter(o[0], o[1], False)
         elif k == 'SCANF':
             r = ir.AggFilter(o[0], o[1], True)
-        elif k == 'SAGG':
+        elif k in SAGG_KINDS:
             r = ir.StreamAgg(o[0], n.names[0], o[1])
-        elif k == 'SSCAN':
+        elif k in SSCAN_KINDS:
             r = ir.StreamAggScan(o[0], n.names[0], o[1])
+        elif k in ('COUNT', 'COUNTS'):
+            r = (ir.ApplyAggOp if k == 'COUNT' else ir.ApplyScanOp)('Count', [], [])
+        elif k in ('GRP', 'GRPS'):
+            r = ir.AggGroupBy(o[0], o[1], k == 'GRPS')
+        elif k in ('EXPL', 'EXPLS'):
+            r = ir.AggExplode(o[0], n.names[0], o[1], k == 'EXPLS')
+        elif k in ('APE', 'APES'):
+            r = ir.AggArrayPerElement(o[0], n.names[0], n.names[1], o[1], k == 'APES')
+        elif k == 'MKAL':
+            r = ir.MakeArray(o, tarray(tint64))
+        elif k == 'PAIR':
+            r = ir.MakeStruct([('a', o[0]), ('b', o[1])])
         else:
             raise ValueError(k)
         memo[id(n)] = r
@@ -354,6 +420,64 @@ def to_ir(root):
 
 
 # ---- realisation through the public expression API --------------------------------------------------------
+def to_expr_agg(root):
+    """Wrapped aggregation / scan families through the public API: `B.aggregate(lambda e: ...)` with hl.agg.count / sum /
+    filter / group_by / explode / array_agg, resp. `C._to_stream()._aggregate_scan(lambda e: ...).to_array()` with the
+    hl.scan twins.  Free leaves are top-level references (what table fields are), as the aggregator API demands.
+    Shapes the API refuses (ExpressionException) are not programs and are dropped by the caller."""
+    from hail.expr.expressions.typed_expressions import construct_expr
+    scan = root.kind.startswith('TOAL')
+    inner = root.ops[0] if scan else root
+    A = hl.scan if scan else hl.agg
+
+    def top(name, t):
+        return construct_expr(ir.TopLevelReference(name, t), t)
+    leaves = {'y': top('y', tint64), 'd': hl.int64(7), 'p': top('p', tbool), 'B': top('B', tarray(tint64)),
+              'C': top('C', tarray(tint64))}
+    memo = {}
+
+    def go(n, env):
+        if isinstance(n, Var):
+            return env[n.name]
+        if isinstance(n, Leaf):
+            return leaves[n.name[-1]] if n.name in ('SB', 'SC') else leaves[n.name]
+        if id(n) in memo:
+            return memo[id(n)]
+        k = n.kind
+        if k in ('EXPL', 'EXPLS'):
+            r = A.explode(lambda x: go(n.ops[1], {**env, n.names[0]: x}), go(n.ops[0], env))
+        elif k in ('APE', 'APES'):
+            r = A.array_agg(lambda x: go(n.ops[1], {**env, n.names[0]: x}), go(n.ops[0], env))
+        else:
+            o = [go(x, env) for x in n.ops]
+            if k == 'LSUB':
+                r = o[0] - o[1]
+            elif k == 'LLT':
+                r = o[0] < o[1]
+            elif k in ('SUM', 'SCAN'):
+                r = A.sum(o[0])
+            elif k in ('COUNT', 'COUNTS'):
+                r = A.count()
+            elif k in ('AGGF', 'SCANF'):
+                r = A.filter(o[0], o[1])
+            elif k in ('GRP', 'GRPS'):
+                r = A.group_by(o[0], o[1])
+            elif k == 'PAIR':
+                r = hl.struct(a=o[0], b=o[1])
+            elif k == 'MKAL':
+                r = hl.array([o[0], o[1]])
+            elif k == 'TOSL':
+                r = o[0]
+            else:
+                raise ValueError(k)
+        memo[id(n)] = r
+        return r
+    src = leaves['C' if scan else 'B']
+    if scan:
+        return src._to_stream()._aggregate_scan(lambda e: go(inner.ops[1], {inner.names[0]: e})).to_array()
+    return src.aggregate(lambda e: go(inner.ops[1], {inner.names[0]: e}))
+
+
 def to_expr(root):
     """The same spec built with hl.* calls (operators, if_else, bind, struct, array, map/filter/fold, len).  Free
     leaves are expression variables (what a table field reference is to the front end); sharing = reuse of the
